@@ -120,6 +120,9 @@ pub struct Gens<'a, G: AffineRepr> {
     pub Bb: G,
     pub gs: &'a [G],
     pub hs: &'a [G],
+    /// reference prover only: add this point to the j-th commitment before it is absorbed
+    /// (statements whose commitments lie outside the prime-order subgroup)
+    pub v_off: Option<(usize, G)>,
 }
 
 /// The unbatched verification relations of the R1CS Bulletproofs protocol.
@@ -251,6 +254,7 @@ struct OwnSink<'a, G: AffineRepr> {
     B: G,
     Bb: G,
     vs: Vec<G>,
+    v_off: Option<(usize, G)>,
 }
 impl<'a, G: AffineRepr> Sink<F<G>> for OwnSink<'a, G> {
     fn user(&mut self, label: &'static [u8], bytes: &[u8]) {
@@ -260,7 +264,12 @@ impl<'a, G: AffineRepr> Sink<F<G>> for OwnSink<'a, G> {
         <Transcript as TranscriptProtocol<G>>::challenge_scalar(self.t, label)
     }
     fn commit(&mut self, v: F<G>, vb: F<G>) {
-        let pt = (smul(&self.B, v) + smul(&self.Bb, vb)).into_affine();
+        let mut pt = (smul(&self.B, v) + smul(&self.Bb, vb)).into_affine();
+        if let Some((j, off)) = &self.v_off {
+            if *j == self.vs.len() {
+                pt = (pt.into_group() + off.into_group()).into_affine();
+            }
+        }
         <Transcript as TranscriptProtocol<G>>::append_point(self.t, b"V", &pt);
         self.vs.push(pt);
     }
@@ -318,7 +327,7 @@ fn ref_prove_inner<G: AffineRepr>(
     let mut vs: Vec<G> = vec![];
     if let Src::Own(t) = &mut src {
         <Transcript as TranscriptProtocol<G>>::r1cs_domain_sep(t);
-        let mut sink = OwnSink::<G> { t, B: g.B, Bb: g.Bb, vs: vec![] };
+        let mut sink = OwnSink::<G> { t, B: g.B, Bb: g.Bb, vs: vec![], v_off: g.v_off };
         model_interp::run_top(prog, &mut own_model, &mut sink);
         vs = sink.vs;
         t.append_u64(b"m", vs.len() as u64);
@@ -357,7 +366,7 @@ fn ref_prove_inner<G: AffineRepr>(
         } else {
             <Transcript as TranscriptProtocol<G>>::r1cs_1phase_domain_sep(t);
         }
-        let mut sink = OwnSink::<G> { t, B: g.B, Bb: g.Bb, vs: vec![] };
+        let mut sink = OwnSink::<G> { t, B: g.B, Bb: g.Bb, vs: vec![], v_off: g.v_off };
         model_interp::run_closures(prog, &mut own_model, &mut sink);
     }
     let m: &Model<F<G>> = match (&src, m_observed) {
